@@ -54,7 +54,13 @@ func credentialOK(u *User, pw string) bool {
 
 // Verif_C11_Authenticate: AUTH [user] password against an arbitrary user table; success exactly
 // when the credentials say so; a failed attempt leaves the connection's identity untouched.
-func Verif_C11_Authenticate() {
+func Verif_C11_Authenticate() { verifAuthenticate("C11") }
+
+// The same scenario decides which user's rules every later command of the connection is
+// authorized against (C06): only a successful AUTH may change that.
+func Verif_C06_AuthDecidesWhoseRulesApply() { verifAuthenticate("C06") }
+
+func verifAuthenticate(tag string) {
 	a := NewACL(config.Config{RequirePass: true, Password: "pw"})
 	def := a.Users[0]
 	def.Enabled = vr.Bool("def_enabled")
@@ -100,16 +106,16 @@ func Verif_C11_Authenticate() {
 	err := a.AuthenticateConnection(context.Background(), conn, cmd)
 	want := target != nil && credentialOK(target, pw)
 	if want {
-		vr.Assert(err == nil, "C11.auth.succeeds_when_credentials_match")
+		vr.Assert(err == nil, tag+".auth.succeeds_when_credentials_match")
 		c := a.Connections[conn]
-		vr.Assert(c.Authenticated && c.User == target, "C11.auth.success_binds_connection_to_user")
+		vr.Assert(c.Authenticated && c.User == target, tag+".auth.success_binds_connection_to_user")
 	} else {
-		vr.Assert(err != nil, "C11.auth.fails_when_credentials_do_not_match")
+		vr.Assert(err != nil, tag+".auth.fails_when_credentials_do_not_match")
 		c := a.Connections[conn]
-		vr.Assert(c.User == prevUser && c.Authenticated == prevAuth, "C11.auth.failure_leaves_identity_unchanged")
+		vr.Assert(c.User == prevUser && c.Authenticated == prevAuth, tag+".auth.failure_leaves_identity_unchanged")
 	}
 	o := a.Connections[other]
-	vr.Assert(o.User == u && o.Authenticated, "C11.auth.other_connections_unaffected")
+	vr.Assert(o.User == u && o.Authenticated, tag+".auth.other_connections_unaffected")
 	vr.Reach("end")
 }
 
